@@ -331,7 +331,7 @@ class C03Perturbed(Harness):
                         continue
                     c.append(dict(g, cls="PerturbedDroplet2D", modes=m, width=w))
         c.append(dict(kind="cart", shape=[2, 2], per="pn", sp="b", org="0", cls="PerturbedDroplet2D", modes=2, width="zero"))
-        for m in (1, 2) + ((3, 4) if th else ()):
+        for m in (1,) + ((2, 3, 4) if th else ()):
             c.append(dict(kind="cart", shape=[2, 2, 2], per="npn", sp="b", org="0", cls="PerturbedDroplet3D", modes=m,
                           width="sym"))
         for pz in (False, True):
@@ -437,7 +437,8 @@ class C03Emulsion(Harness):
 
     def configs(self, tier):
         gs = [dict(kind="cart", shape=[5], per="p"), dict(kind="cart", shape=[3, 2], per="np", sp="b", org="0")]
-        out = [dict(g, K=2, sharp=s) for g in gs for s in (False, True) if not (s and len(g["shape"]) > 1 and tier != "thorough")]
+        out = [dict(g, K=2, sharp=s) for g in gs for s in (False, True) if not (s and tier != "thorough")]
+        out.append(dict(kind="cart", shape=[4], per="n", K=2, sharp=True))
         if tier == "thorough":
             out += [dict(g, K=3, sharp=False) for g in gs]
         return out
